@@ -40,7 +40,7 @@ def chart_and_history(seed, k, engine=None, bias=None, adversarial_p=0.3, dm=Non
         actors = {"main": [create, {"op": "validate", "i": 0}] + p_c01.history_ops(rp, many=(True if par and rp.random() < 0.8 else None))}
         sched = {"seed": seed & 0x7fffffff, "policy": "nonpreempt", "max_decisions": 400000}
         mode = "det"
-    return {"id": k, "seed": seed, "step_budget": 900, "entropy_seed": seed & 0x7fffffff, "mode": mode, "engine": eng, "sched": sched, "planted": planted,
+    return {"id": k, "seed": seed, "step_budget": 200, "entropy_seed": seed & 0x7fffffff, "mode": mode, "engine": eng, "sched": sched, "planted": planted,
             "charts": {"main": root.xml()}, "actors": actors}
 
 
